@@ -257,17 +257,19 @@ func execCert(env Env, t *world.TaskSpec, out *Outcome) {
 					}
 				}
 				// the checker may stop reading at any time: never block on it for ever
-				select {
-				case <-done:
-					return
-				default:
-				}
 				h := env.Pre()
 				stopped := false
+				// the stop test sits after the scheduling point and right before the blocking select, so the
+				// two cases are never ready together (the runtime would then choose at random)
 				select {
-				case ch <- ln:
 				case <-done:
 					stopped = true
+				default:
+					select {
+					case ch <- ln:
+					case <-done:
+						stopped = true
+					}
 				}
 				env.Post(h)
 				if stopped {
